@@ -3057,8 +3057,11 @@ func applyOptionDefaults(options *config.Options) {
 }
 
 func fixInvalidUnsupportedJSFeatureOverrides(options *config.Options, implies compat.JSFeature, implied compat.JSFeature) {
-	// If this feature is unsupported, that implies that the other features must also be unsupported
-	if options.UnsupportedJSFeatureOverrides.Has(implies) {
+	// If this feature is unsupported, that implies that the other features must also be unsupported.
+	// This also applies when the feature is unsupported because of the target and one of the other
+	// features has been turned back on with an override.
+	if options.UnsupportedJSFeatureOverrides.Has(implies) ||
+		(options.UnsupportedJSFeatures.Has(implies) && (options.UnsupportedJSFeatureOverridesMask&implied) != 0) {
 		options.UnsupportedJSFeatures |= implied
 		options.UnsupportedJSFeatureOverrides |= implied
 		options.UnsupportedJSFeatureOverridesMask |= implied
